@@ -28,15 +28,55 @@ RULE_TEXT = (
 )
 ASSUMPTIONS = [
     "STV/Alaska use the fractional transfer here (random transfer is an intentionally random step, judged by C02/C03)",
-    "a 'borda'/'first_place' order is accepted if it is non-increasing in that score of either the round's input profile or the initial profile (the statement says 'of the profile')",
+    "a 'borda'/'first_place' order must be non-increasing in that score of the profile being counted in the round (STV elimination ties: first-place votes of the initial profile, as C02 states)",
     "runs that raise anything but ValueError are left to C01 and only their recorded prefix is compared",
 ]
 case_size = common.case_size
 shrink_steps = common.rule_case_steps
 
 
+def gen_late_top_tie(rng):
+    """one-by-one STV in which two candidates are lifted over the quota by the same surplus and are exactly tied in a LATER
+    round, while other ballots make their Borda scores differ (and differ between the original and the round's profile)"""
+    for _ in range(30):
+        nf = rng.randint(1, 2)
+        names = ["X", "A", "B"] + ["F%d" % i for i in range(nf)]
+        w, k = rng.randint(3, 9), rng.randint(1, 8)
+        bs = [([["X"], ["A"]] + ([[x] for x in rng.sample(names[3:], rng.randint(0, nf))]), w),
+              ([["X"], ["B"]] + ([[x] for x in rng.sample(names[3:], rng.randint(0, nf))]), w),
+              ([["A"]] + [[x] for x in rng.sample(["X"] + names[3:], rng.randint(0, nf + 1))], k),
+              ([["B"]] + [[x] for x in rng.sample(["X"] + names[3:], rng.randint(0, nf + 1))], k)]
+        for f in names[3:]:
+            for _ in range(rng.randint(1, 2)):
+                rest = rng.sample([c for c in names if c != f], rng.randint(1, len(names) - 1))
+                bs.append(([[f]] + [[c] for c in rest], rng.randint(1, 3)))
+        N = sum(x[1] for x in bs)
+        m = 3
+        q = N // (m + 1) + 1
+        tX = 2 * w
+        if tX < q:
+            continue
+        lifted = Fraction(w) * (tX - q) / tX + k
+        fp_f = max([sum(x[1] for x in bs if x[0][0] == [f]) for f in names[3:]] + [0])
+        if lifted < q or lifted <= fp_f or lifted >= tX:
+            continue
+        rng.shuffle(bs)
+        cands = list(names)
+        rng.shuffle(cands)
+        return {"rule": "STV", "kw": {"m": 3, "quota": "droop", "simultaneous": False, "tiebreak": rng.choice(["borda", "first_place", "borda"]), "transfer": "fractional"},
+                "profile": {"candidates": cands, "ballots": [{"r": r, "w": str(wt)} for r, wt in bs]},
+                "shape": {"n": len(names), "nb": len(bs), "law": "late-top-tie", "names": "plain", "wfam": "small"}}
+    return None
+
+
 def generate(run_seed, tier):
     rng = stream(run_seed, "gen")
+    if rng.random() < 0.04:
+        c = gen_late_top_tie(rng)
+        if c is not None:
+            c["policies"] = common.gen_policies(rng, run_seed)
+            c["history"] = False
+            return c
     case = G.gen_rule_case(rng, rules=RULES, max_c=6, tie_bias=0.5, pairwise_ties=True)
     if "transfer" in case["kw"]:
         case["kw"]["transfer"] = "fractional"
@@ -104,7 +144,8 @@ def round_contexts(case, o, e):
                 if elim:
                     out[r] = dict(tally=RS.fpv(J), selected=set(), eliminated=elim, tbkind="first_place", score_opts=[fp0], mode="elim")
                 else:
-                    out[r] = dict(tally=RS.fpv(J), selected=sel(s), eliminated=set(), tbkind=tbk, score_opts=_tb_score_options(tbk, J, Jinit), mode="elect")
+                    # an election tie is ordered by the score of the profile being counted in that round
+                    out[r] = dict(tally=RS.fpv(J), selected=sel(s), eliminated=set(), tbkind=tbk, score_opts=_tb_score_options(tbk, J, J), mode="elect")
     return out
 
 
